@@ -164,7 +164,22 @@ def sweep_stale():
         pass
 
 
+def _unmount_below(p):
+    """Lazily unmount anything still mounted below p (the -xdev workload mounts small tmpfs instances inside its scratch tree)."""
+    try:
+        with open("/proc/mounts", "rb") as f:
+            mps = [l.split(b" ")[1].decode("unicode_escape", "replace") for l in f if l.count(b" ") >= 2]
+    except OSError:
+        return
+    pre = p.rstrip("/") + "/"
+    for m in sorted((m for m in mps if m.startswith(pre)), key=len, reverse=True):
+        subprocess.run(["umount", "-l", m], stdout=subprocess.DEVNULL, stderr=subprocess.DEVNULL)
+
+
 def force_rmtree(p):
+    if p.startswith(scratch_root() + "/verif-"):
+        _unmount_below(p)
+
     def onerr(func, path, exc):
         try:
             os.chmod(os.path.dirname(path), 0o700)
